@@ -1085,7 +1085,7 @@ fn main() {
         }
         for (n, k) in ks.iter().enumerate() {
             // reopen a fresh server after the fault: always in thorough, every 3rd case in quick
-            let with_fresh = thorough || (n + ki_idx) % 4 == 0;
+            let with_fresh = (n + ki_idx) % (if thorough { 2 } else { 4 }) == 0;
             cx.fault(&ki, *k, false, &mut rep, with_fresh);
             if cx.oracle_failed {
                 break 'kinds;
@@ -1134,7 +1134,7 @@ fn main() {
         let mut sab = Sab::open(&work);
         let mut before = srv.observe();
         let mut raw = sab.dump();
-        let n = args.cases(24, 400);
+        let n = args.cases(24, 240);
         let mut model = cx.model.take();
         let mut seqs: Vec<Vec<Op>> = fixed_kinds();
         for i in 0..n {
